@@ -29,7 +29,7 @@ def CrpInv {α : Type} (s : CrpSt α) : Prop :=
   s.weights.length = s.k ∧ Canonical s.z ∧ numBlocks s.z = s.k
 
 /-- invariant of the seating loop over the exact reals: the weight vector is the vector of block sizes and
-    `sum` is (items seated) + α, i.e. `pflip` is called with weights `counts ++ [α]` and their exact total -/
+    `sum` is (items seated) + α, i.e. `crpPflip` is called with weights `counts ++ [α]` and their exact total -/
 def CrpInvR (alpha : R) (s : CrpSt R) : Prop :=
   s.weights.length = s.k ∧ (∀ j, j < s.k → (s.weights.getD j RealLike.nan).val = (s.z.count j : ℝ)) ∧
   (s.weights.map R.val).sum = (s.z.length : ℝ) ∧ s.sum.val = (s.z.length : ℝ) + alpha.val ∧
@@ -200,23 +200,23 @@ theorem canonical_nil : Canonical [] := by intro i hi; simp at hi
 
 /-! ### `Crp::draw` -/
 
-theorem pflipGo_bound {α : Type} [RealLike α] (r : α) (ws : List α) (ix : Nat) (cwt : α) (i : Nat)
-    (h : pflipGo r ws ix cwt = some i) : ix ≤ i ∧ i < ix + ws.length := by
+theorem crpPflipGo_bound {α : Type} [RealLike α] (r : α) (ws : List α) (ix : Nat) (cwt : α) (i : Nat)
+    (h : crpPflipGo r ws ix cwt = some i) : ix ≤ i ∧ i < ix + ws.length := by
   induction ws generalizing ix cwt with
-  | nil => simp [pflipGo] at h
+  | nil => simp [crpPflipGo] at h
   | cons w ws ih =>
-    simp only [pflipGo] at h
+    simp only [crpPflipGo] at h
     split at h
     · injection h with h; subst h; simp
     · have := ih _ _ h
       simp only [List.length_cons]; omega
 
-theorem pflipGo_some (r : R) (ws : List R) (ix : Nat) (cwt : R) (hle : cwt.val ≤ r.val)
-    (h : r.val < cwt.val + (ws.map R.val).sum) : ∃ i, pflipGo r ws ix cwt = some i := by
+theorem crpPflipGo_some (r : R) (ws : List R) (ix : Nat) (cwt : R) (hle : cwt.val ≤ r.val)
+    (h : r.val < cwt.val + (ws.map R.val).sum) : ∃ i, crpPflipGo r ws ix cwt = some i := by
   induction ws generalizing ix cwt with
   | nil => simp only [List.map_nil, List.sum_nil, add_zero] at h; linarith
   | cons w ws ih =>
-    simp only [pflipGo]
+    simp only [crpPflipGo]
     by_cases hgt : RealLike.gt (cwt + w) r = true
     · simp [hgt]
     · simp only [hgt, Bool.false_eq_true, if_false]
